@@ -1,4 +1,4 @@
-\* U2 of C10, quick: edge gaps, 4 patterns for the second operand, sign pairs (+,+) (+,-) (the driver flips both at random)
+\* U2 of C10, quick: edge gaps, 5 patterns for the second operand, sign pairs (+,+) (+,-) (the driver flips both at random)
 SPECIFICATION Spec
 CONSTANT Tier = "quick"
 INVARIANT Emit
